@@ -7,6 +7,7 @@ verified and then re-abstracted to its post-condition (assume/guarantee), which 
 the next step, so chains and round trips of any length are covered by the single-step results.
 """
 import itertools
+import zlib
 import json
 import sys
 import time
@@ -42,7 +43,9 @@ UNCONN3 = dict(nd=3, groups=[{'v_parallel_2d': [0, 2, 1], 'mode_solve': [1, 2, 0
 # a route of three steps across handlers (A-C-B inside the 2-D handler, then the gather to D)
 THREE_STEP = dict(nd=3, groups=[{'A': [0, 1, 2], 'C': [0, 2, 1], 'B': [1, 2, 0]}, {'D': [1, 0, 2]}],
                   procs=lambda p0, p1: [[p0, p1], p0], start='A')
-FAMILIES = dict(three3=THREE_STEP, driver3=DRIVER3, driver4=DRIVER4, two=TWO_GROUPS, upstream4=UPSTREAM4, rev3=REV3, rev_two=REV_TWO, unconn3=UNCONN3)
+# gather first, then a transpose inside the less distributed handler (the destination block is larger than the source block)
+GATHER3 = dict(nd=3, groups=[{'A': [0, 1, 2]}, {'G': [0, 1, 2], 'H': [2, 1, 0]}], procs=lambda p0, p1: [[p0, p1], p0], start='A')
+FAMILIES = dict(gather3=GATHER3, three3=THREE_STEP, driver3=DRIVER3, driver4=DRIVER4, two=TWO_GROUPS, upstream4=UPSTREAM4, rev3=REV3, rev_two=REV_TWO, unconn3=UNCONN3)
 
 
 def tag(cfg):
@@ -248,6 +251,11 @@ def configs(tier):
         add('three3', (2, 2), 'A', 'D', False, 3)
         add('unconn3', (2, 3), 'mode_solve', 'poloidal', False, 3)
         add('unconn3', (2, 3), 'poloidal', 'v_parallel_2d', True, 3)
+        # two steps without a spare buffer ending in a transpose inside the 1-D handler (block grows on the way)
+        add('gather3', (2, 2), 'A', 'H', False, 3)
+        add('gather3', (2, 2), 'H', 'A', False, 3)
+        add('gather3', (2, 3), 'A', 'H', True, 3)
+        add('upstream4', (2, 2), 'flux_surface2', 'z_surface', False, 2)
     else:
         for grid in [(1, 2), (2, 1), (2, 2), (1, 3), (3, 1), (2, 3), (3, 2), (3, 3)]:
             for a, b in itertools.permutations(names3, 2):
@@ -255,11 +263,15 @@ def configs(tier):
                     add('driver3', grid, a, b, buf, 4 if max(grid) < 3 else 3)
         for grid in [(1, 2), (2, 1), (2, 2)]:
             for a, b in itertools.permutations(names3, 2):
-                add('driver4', grid, a, b, (hash((a, b)) % 2 == 0), 3)
+                add('driver4', grid, a, b, (zlib.crc32((a + '>' + b).encode()) % 2 == 0), 3)
         up = ['flux_surface2', 'v_parallel', 'poloidal', 'flux_surface1', 'z_surface', 'vr_contig1']
         for grid in [(2, 2), (2, 1), (1, 2)]:
             for a, b in itertools.permutations(up, 2):
-                add('upstream4', grid, a, b, (hash((a, b)) % 3 == 0), 2 if grid == (2, 2) else 3)
+                if grid == (2, 2):
+                    add('upstream4', grid, a, b, False, 2)
+                    add('upstream4', grid, a, b, True, 2)
+                else:
+                    add('upstream4', grid, a, b, (zlib.crc32((a + '>' + b).encode()) % 3 == 0), 3)
         for grid in [(2, 2), (2, 3)]:
             for a, b in itertools.permutations(['A', 'B', 'C'], 2):
                 for buf in (False, True):
@@ -269,6 +281,10 @@ def configs(tier):
             for a, b in itertools.permutations(['A', 'B', 'C', 'D'], 2):
                 for buf in (False, True):
                     add('three3', grid, a, b, buf, 3)
+        for grid in [(2, 2), (2, 3), (3, 2)]:
+            for a, b in itertools.permutations(['A', 'G', 'H'], 2):
+                for buf in (False, True):
+                    add('gather3', grid, a, b, buf, 3)
         for grid in [(2, 3), (3, 2)]:
             for a, b in itertools.permutations(['mode_solve', 'poloidal', 'v_parallel_2d'], 2):
                 add('unconn3', grid, a, b, grid == (2, 3), 3)
